@@ -225,13 +225,14 @@ def run_async(snapfile, rng, quick, recs, meta):
             peer.seen.clear()
             peer.wcget_delay = 0.6
             n0 = peer.n_getwc
-            set_config_mode(GeckoConfig.PING_FREQUENCY_IN_SECONDS <= 10)       # re-asserting the mode wakes the update loop
-            for _ in range(40):
+            # the next periodic update cycle of the facade (its own period, in virtual time)
+            period = GeckoConfig.FACADE_UPDATE_FREQUENCY_IN_SECONDS
+            for _ in range(int((period + 10) / 0.05)):
                 s.advance(0.05)
                 if peer.n_getwc > n0:
                     break
             if peer.n_getwc == n0:
-                raise env.MachineryError("the facade update loop did not poll the water-care mode when woken")
+                raise env.MachineryError("the facade update loop did not poll the water-care mode within its period")
             raised = ""
             try:
                 s.run(wc.async_set_mode(mode))
